@@ -526,6 +526,15 @@ MODULE_WITNESSES = [
     ("ok", 4, "units real\n" + DZ % ("atomNumbers 1", "0.25"), True, "reference (units real)"),
     ("ok", 4, "UNITS Real\n" + DZ % ("atomNumbers 1", "0.25"), True, "reference (units, letter case)"),
     ("strict:module:unknown-units-accepted", 4, "units furlongs\n" + DZ % ("atomNumbers 1", "0.25"), False, "`units furlongs` is accepted"),
+    # text that is neither a keyword nor a value must be an error, wherever it is on the line
+    ("strict:module:text-after-brace-accepted", 4, (DZ % ("atomNumbers 1", "0.25")).replace("      atomNumbers 1\n    }", "      atomNumbers 1\n    } junk"), False,
+     "`} junk` after the closing brace of an atom group"),
+    ("strict:module:text-after-brace-accepted", 4, (DZ % ("atomNumbers 1", "0.25")).replace("    main {\n      atomNumbers 1\n    }", "    main { atomNumbers 1 } junk"), False,
+     "`main { atomNumbers 1 } junk` on one line"),
+    ("strict:module:text-before-brace-accepted", 4, (DZ % ("atomNumbers 1", "0.25")).replace("colvar {", "colvar foo {"), False, "`colvar foo {`"),
+    ("strict:module:second-block-ignored", 4, (DZ % ("atomNumbers 1", "0.25")).replace("    ref {", "    main {\n      atomNumbers 2\n    }\n    ref {"), False,
+     "a second `main { ... }` block in a component that reads one"),
+    ("ok", 4, (DZ % ("atomNumbers 1", "0.25")).replace("}\nharmonic {", "} harmonic {"), True, "reference (`} harmonic {` on one line)"),
     # a misspelling that is a proper PREFIX of an optional keyword of the same block (the whole word must match)
     ("strict:module:keyword-prefix-accepted", 4, "colvarsTrajFreq 5\n" + DZ % ("atomNumbers 1", "0.25"), False, "`colvarsTrajFreq 5` (prefix of colvarsTrajFrequency) at the module level"),
     ("strict:module:keyword-prefix-accepted", 4, (DZ % ("atomNumbers 1", "0.25")).replace("  width 0.5\n", "  width 0.5\n  upperBound 3.0\n"), False,
@@ -1113,7 +1122,7 @@ def check(run):
             elif not io.endswith(" empty"):
                 bad = ("sequence:registry-not-empty", "the parser object's registry is not empty after a sequence of read_config_string calls (%s)" % meta["tags"])
         elif kind == "NP":
-            if meta["tag"] in ("misspelt", "wrong-level", "unknown-keyword", "brace") and io == "accept":
+            if meta["tag"] in ("misspelt", "wrong-level", "unknown-keyword", "brace", "junk-after-brace", "junk-before-brace") and io == "accept":
                 bad = ("strict:nested:%s-accepted" % meta["tag"], "a nested configuration with a %s mutation is accepted: %r" % (meta["tag"], meta["conf"]))
             elif meta["tag"] == "valid" and io != "accept":
                 bad = ("layout:nested:valid-refused", "a valid nested configuration (random layout) is refused: %r" % meta["conf"])
